@@ -452,6 +452,27 @@ def families(rng: random.Random):
     yield {"additionalItems": False}, arrs
     yield {"items": {"type": "integer"}, "additionalItems": False}, arrs
     yield {"type": "array", "contains": {"type": "integer"}}, arrs
+    # 5b. boolean schemas (and the empty tuple) in every schema position
+    for b in (False, True):
+        for typed in ({}, {"type": "array"}):
+            yield {**typed, "items": b}, arrs + [[None, None]]
+            yield {**typed, "items": [b]}, arrs
+            yield {**typed, "items": [{"type": "integer"}], "additionalItems": b}, arrs
+            yield {**typed, "items": [], "additionalItems": b}, arrs
+            yield {**typed, "contains": b}, arrs
+        yield {"items": [], "additionalItems": {"type": "integer"}}, arrs + [["a"], [1, 2]]
+        yield {"type": "array", "items": [], "additionalItems": {"type": "string"}}, arrs + [["a"], [1, 2]]
+        yield {"additionalProperties": b}, objs
+        yield {"propertyNames": b}, objs
+        yield {"properties": {"a": b}}, objs
+        yield {"patternProperties": {"^a": b}}, objs
+        yield {"dependencies": {"a": b}}, objs
+        yield {"not": b}, vals
+        yield {"anyOf": [b]}, vals
+        yield {"oneOf": [b, {"type": "integer"}]}, vals
+        yield {"allOf": [b, {}]}, vals
+        yield {"type": "object", "title": "B", "properties": {"a": {"type": "array", "items": b}}}, [{"a": []}, {"a": [1]}, {}, {"a": [[]]}]
+        yield {"anyOf": [{"type": "array", "items": b}, {"type": "string"}]}, [[], [1], "s", 1]
     # 6. dependencies
     yield {"dependencies": {"a": ["b"], "b": {"required": ["c"]}, "c": []}}, [{}, {"a": 1}, {"a": 1, "b": 2}, {"a": 1, "b": 2, "c": 3}, {"b": 1}, {"c": 1}, 1]
     yield {"type": "object", "title": "D", "dependencies": {"a": {"properties": {"b": {"type": "integer"}}}}}, [{"a": 1, "b": "s"}, {"a": 1, "b": 1}, {"b": "s"}, {}]
